@@ -460,7 +460,7 @@ func HashHex(b *ledger.Block) string {
 // Observe reads the node's externally visible state. Blocks are returned so the caller can ship the
 // definitions of blocks it has not shipped yet.
 func (n *Node) Observe() (*Obs, []*ledger.Block, []*ledger.Transaction) {
-	o := &Obs{Chain: []string{}, Pool: []string{}, Registered: []string{}, Pending: []string{}, Log: []string{}}
+	o := &Obs{Chain: []string{}, Pool: []string{}, Registered: []string{}, Log: []string{}}
 	blocks := n.AllBlocks()
 	for _, b := range blocks {
 		o.Chain = append(o.Chain, HashHex(b))
@@ -473,10 +473,7 @@ func (n *Node) Observe() (*Obs, []*ledger.Block, []*ledger.Transaction) {
 	o.ByAddr = sortedEntries(n.Utxos.VerifUtxosByAddress())
 	o.Registered = n.Reg.VerifRegistered()
 	sort.Strings(o.Registered)
-	o.Pending = n.Reg.VerifPendingRemovals()
-	if o.Pending == nil {
-		o.Pending = []string{}
-	}
+	o.Pending = n.Reg.VerifPendingRemovals() // nil stays null in JSON: the nil/empty distinction reaches block hashes
 	for _, l := range n.Log.Drain() {
 		o.Log = append(o.Log, Classify(l))
 	}
